@@ -38,14 +38,30 @@ class Context:
         return self._analyzer
 
 
+def analyse(prop: str, root=None, ctx=None) -> Report:
+    """run the property's rules on `root` without writing or printing anything (used by the self-test)"""
+    rep = Report(prop, 'quick', 0, dry=True)
+    warnings.simplefilter('ignore')
+    try:
+        ctx = ctx or Context(root)
+        mod = importlib.import_module(f'sa.props.{prop}')
+        mod.check(ctx, rep)
+    except AnalysisError as e:
+        rep.error(str(e))
+    except Exception as e:
+        rep.error(f'internal error: {type(e).__name__}: {e}')
+    return rep
+
+
 def run_check(prop: str, tier: str, seed: int, root=None, quiet=False) -> int:
     rep = Report(prop, tier, seed)
     try:
         ctx = Context(root)
         mod = importlib.import_module(f'sa.props.{prop}')
         mod.check(ctx, rep)
-        if tier == 'thorough' and hasattr(mod, 'thorough'):
-            mod.thorough(ctx, rep)
+        if tier == 'thorough':
+            from . import selftest
+            selftest.run(prop, rep, root)
     except AnalysisError as e:
         rep.error(str(e))
     except Exception as e:  # a crash of the analysis is never reported as a violation
